@@ -200,4 +200,3 @@ func vfGenPkt(r *vfRand, kind string, sub int) vfPkt {
 	}
 	return p
 }
-
